@@ -27,12 +27,13 @@ def run(ctx, replay=None):
         cases = [replay['case']] if replay and replay.get('case') else vc.corpus_cases('C20')
         while len(cases) < n:
             kind, c = gen.point_set(rng, nmax=26)
-            metric = rng.choice(['euclidean', 'euclidean', 'cityblock', 'chebyshev'])
+            metric = rng.choice(['euclidean', 'euclidean', 'cityblock', 'chebyshev', 'minkowski'])
+            exm_ = 'cityblock' if metric == 'minkowski' else metric       # minkowski is used with the keyword argument p=1
             npts = len(c)
             ex = {}
             for a in range(npts):
                 for b in range(a + 1, npts):
-                    ex[(a, b)] = gen.exact_dist(c[a], c[b], metric)
+                    ex[(a, b)] = gen.exact_dist(c[a], c[b], exm_)
             reps = sorted({exact_root(e)[1] for e in ex.values() if exact_root(e)[0] and e > 0}) if metric == 'euclidean' else sorted({float(e) for e in ex.values() if e > 0})
             form = rng.choice(['none', 'occurring', 'occurring', 'generic'])
             if form == 'occurring' and reps:
@@ -42,7 +43,7 @@ def run(ctx, replay=None):
             else:
                 md = float(max(float(x) ** (0.5 if metric == 'euclidean' else 1) for x in ex.values())) * rng.uniform(0.2, 0.9) if ex else 1.0
                 md = round(md * 16) / 16.0 + 1.0 / 128
-            cases.append({'coords': c.tolist(), 'metric': metric, 'max_dist': md, 'N': rng.randint(1, npts + 1),
+            cases.append({'coords': c.tolist(), 'metric': metric, 'mkw': ({'p': 1} if metric == 'minkowski' else {}), 'max_dist': md, 'N': rng.randint(1, npts + 1),
                           'tags': {'points': kind, 'dim': int(c.shape[1]), 'n': npts, 'max_dist_form': form if md is not None else 'none'}})
         for case in cases:
             for k, v in case['tags'].items():
@@ -50,16 +51,25 @@ def run(ctx, replay=None):
             ctx.count('metric', case['metric'])
             c = np.array(case['coords'], float)
             npts = len(c)
-            metric, md, N = case['metric'], case['max_dist'], case['N']
+            impl_metric, mkw = case['metric'], dict(case.get('mkw') or {})
+            metric = 'cityblock' if impl_metric == 'minkowski' else impl_metric       # the metric the exact reference uses
+            md, N = case['max_dist'], case['N']
+            space = lambda pts, lim: MetricSpace(pts, impl_metric, lim, dist_metric_kwargs=dict(mkw))
             ex = lambda a, b: gen.exact_dist(c[a], c[b], metric)
             within = lambda a, b: (ex(a, b) <= (Fraction(md) ** 2 if metric == 'euclidean' else Fraction(md))) if md is not None else True
             try:
-                ms = MetricSpace(c.copy(), metric, md)
+                caller = c.copy()
+                ms = space(caller, md)
                 D = ms.dists
+                # the caller re-uses its buffer: the space keeps describing the points it was built from
+                caller *= 2.0
+                caller += 1.0
             except Exception as e:
                 ctx.count('rejected', type(e).__name__)
                 ctx.case_done(case, False)
                 continue
+            if not np.array_equal(np.asarray(ms.coords, float), c):
+                ctx.problem('oracle', 'the metric space follows later writes into the array it was built from (its points are no longer the points its distances belong to)', case, None, {'what': 'space-aliases-caller'})
             is_sparse = sparse.issparse(D)
             ctx.count('storage', 'sparse' if is_sparse else 'dense')
             ctx.disagreements_checked += 1
@@ -101,10 +111,10 @@ def run(ctx, replay=None):
             # ---- neighbour search of a pair: queries = a subset of shifted points, against the same observation set
             q = c[: max(2, npts // 3)] + (0.0 if rng.random() < 0.5 else 0.5)
             try:
-                msq = MetricSpace(q.copy(), metric, md)
+                msq = space(q.copy(), md)
                 pair = MetricSpacePair(msq, ms)
                 PD = pair.dists
-                dense_ref = MetricSpacePair(MetricSpace(q.copy(), metric, None), MetricSpace(c.copy(), metric, None))
+                dense_ref = MetricSpacePair(space(q.copy(), None), space(c.copy(), None))
             except Exception as e:
                 ctx.count('pair_rejected', type(e).__name__)
                 ctx.case_done(case, not bad)
